@@ -228,7 +228,7 @@ Proof.
   destruct (alookup _ _ _) as [ex|]; cbn [fst]; [|sq].
   destruct (matched_queues _ _ _) as [|q1 qs]; cbn [fst]; [sq|].
   apply fold_left_preserves.
-  - intros s0 qn H0. assert (H1 : QI (queue_push s0 qn u)) by (apply QI_queue_push; auto). sq.
+  - intros s0 qn H0. assert (H1 : QI (queue_push s0 qn u)) by (apply QI_queue_push; auto). unfold push_one. sq.
   - sq.
 Qed.
 
@@ -413,15 +413,13 @@ Proof.
     pose proof (QI_vhost_delete_queue _ qn false false H0) as Hd.
     destruct (vhost_delete_queue false (s <| autodel := rest |>) qn false false) as [[s1 e1] r1]. exact Hd.
   - (* LPersistTick *)
-    match goal with |- QI (fst (fold_left ?f ?l0 ?a)) =>
-      assert (Hg : forall ks acc, QI (fst acc) -> QI (fst (fold_left f ks acc))) end.
-    { induction ks as [|k t IH]; intros acc Ha; simpl; auto. apply IH. destruct acc as [s0 e0]. cbn [fst] in *.
-      destruct (get_msg s0 (fst k)) as [m|]; auto. destruct (m_conf m); auto. cbn [fst]. sq. }
-    apply Hg. cbn [fst]. sq.
+    cbn [fst]. apply fold_left_preserves.
+    + intros s0 k H0. eapply allq_same_queues; [apply queues_store_confirm|exact H0].
+    + sq.
   - (* LRelay *)
     destruct (relay s) as [|u rest]; [exact H|].
     destruct (get_msg _ u) as [m|]; cbn [fst]; [|sq].
-    destruct (_ =? _)%Z; [|cbn [fst]; sq]. destruct (m_conf m) as [[[? ?] ?]|]; cbn [fst]; sq.
+    destruct (m_conf m) as [[[? ?] ?]|]; cbn [fst]; sq.
   - (* LConfirmTick *)
     destruct (get_chan s c h) as [ch|]; [|exact H]. destruct (negb _); [exact H|].
     destruct (ch_status ch); cbn [fst]; sq.
